@@ -184,7 +184,7 @@ def mk_calc(kind, params):
     raise ValueError(kind)
 
 
-LEVEL_FUEL = 400
+LEVEL_FUEL = 80
 
 
 class Built:
